@@ -1,7 +1,7 @@
 (* C01 at the level of the entry points of the model: Issuer::encode followed by Holder::verify. *)
 From Coq Require Import List String Ascii Bool Arith ZArith Lia Sorting.Sorted Permutation.
 Import ListNotations.
-Require Import SDJ.Json SDJ.Wire SDJ.Model2 SDJ.Out SDJ.Restore2 SDJ.ATree SDJ.T2a SDJ.T2b SDJ.T2c SDJ.T2d SDJ.T2e SDJ.T2h SDJ.T2k SDJ.T2m SDJ.T2n SDJ.T2o SDJ.T2p
+Require Import SDJ.Json SDJ.Wire SDJ.Model2 SDJ.Out SDJ.Restore2 SDJ.ATree SDJ.T2a SDJ.T2b SDJ.T2c SDJ.T2d SDJ.T2e SDJ.T2h SDJ.T2k SDJ.T2m SDJ.T2n SDJ.T2o SDJ.T2p SDJ.C12Proofs
   SDJ.Issuer1 SDJ.T1a SDJ.T1b SDJ.T1c SDJ.T1d SDJ.T1e SDJ.T1f SDJ.T1g SDJ.T1h SDJ.T1i SDJ.T1j SDJ.Split SDJ.SplitM SDJ.SplitMProofs SDJ.Issuer2 SDJ.T1k SDJ.T1m SDJ.T1n SDJ.T1q SDJ.T1r SDJ.T1s
   SDJ.Verify SDJ.C07Proofs.
 Local Open Scope string_scope.
@@ -298,8 +298,9 @@ Proof.
     - rewrite obj_get_insert_other by discriminate. rewrite Hb2, obj_get_insert_same. reflexivity.
     - rewrite Hb2, obj_get_insert_same. reflexivity. }
   unfold holder_verify, holder_verify_raw. rewrite sd_jwt_parts_m_total, Hparts. cbn [obind].
-  rewrite (jwt_round _ _ _ Hsign). cbn [obind]. rewrite Halg. cbn [parse_halg String.eqb Ascii.eqb Bool.eqb obind].
-  unfold restore_and_strip. rewrite Halg. cbn [jstr_or_empty parse_halg String.eqb Ascii.eqb Bool.eqb]. rewrite hash_is.
+  apply declared_halg_str in Halg. cbn [parse_halg String.eqb Ascii.eqb Bool.eqb] in Halg.
+  rewrite (jwt_round _ _ _ Hsign). cbn [obind]. rewrite Halg. cbn [obind].
+  unfold restore_and_strip. rewrite Halg. rewrite hash_is.
   change (JObj (flat_map (bmem H enc) m3)) with (blind H enc t''). rewrite Hps. cbn [of_res obind fst snd].
   f_equal. f_equal. f_equal.
   (* the claims: everything is opened, bookkeeping and _sd_alg are removed *)
